@@ -1078,7 +1078,9 @@ impl DistanceFromLeaf {
                 return distance;
             }
             let children = element.children();
-            assert!(!children.is_empty());
+            if children.is_empty() {
+                return distance;        // an empty element such as 'none' or 'mprescripts'
+            }
             element = as_element( if use_left_side {children[0]} else {children[children.len()-1]} );
             distance += 1;
         }
